@@ -177,6 +177,22 @@ func stressMain(args []string) int {
 			_ = cache.Refresh()
 		case "Configure":
 			_ = cache.Configure(cdi.WithSpecDirs(dir, dir2), cdi.WithAutoRefresh(true))
+		case "NewCache":
+			// the constructor starts the watcher before its initial scan: events arrive while it scans
+			nc, err := cdi.NewCache(cdi.WithSpecDirs(dir, dir2), cdi.WithAutoRefresh(true))
+			if err == nil && nc != nil {
+				var got []string
+				for _, q := range nc.ListDevices() {
+					if strings.HasPrefix(q, stressKind+"=") {
+						got = append(got, strings.TrimPrefix(q, stressKind+"="))
+					}
+				}
+				sort.Strings(got)
+				if s := strings.Join(got, ","); s != "a,x,y" && s != "b,x,y" {
+					mixed("NewCache+ListDevices", got)
+				}
+				_ = nc.Configure(cdi.WithAutoRefresh(false))
+			}
 		case "GetErrors":
 			_ = cache.GetErrors()
 		case "GetSpecDirectories":
